@@ -48,6 +48,8 @@ type Solver struct {
 	dead    bool
 	LastErr string
 	buf     strings.Builder
+	asserted []*Term
+	OneShots int
 }
 
 func Z3Argv() []string   { return []string{"z3", "-in", "-smt2"} }
@@ -164,6 +166,7 @@ func (s *Solver) Reset() {
 	s.defined = map[int]bool{}
 	s.declV = map[string]bool{}
 	s.declF = map[string]bool{}
+	s.asserted = nil
 }
 
 func (s *Solver) name(t *Term) string {
@@ -225,6 +228,10 @@ func (s *Solver) define(c *Ctx, t *Term) {
 
 // Assert adds t permanently to the current run-level scope.
 func (s *Solver) Assert(c *Ctx, t *Term) {
+	s.asserted = append(s.asserted, t)
+	if c.UsesFP {
+		return
+	}
 	s.define(c, t)
 	s.send(fmt.Sprintf("(assert %s)", s.name(t)))
 }
@@ -261,6 +268,12 @@ func (s *Solver) Check(c *Ctx, extra ...*Term) Result {
 
 // CheckModel is Check plus, when sat, the values of the `want` terms (SMT-LIB value syntax).
 func (s *Solver) CheckModel(c *Ctx, extra []*Term, want []*Term) (Result, []string) {
+	if c.UsesFP {
+		return s.oneShotModel(c, extra, want)
+	}
+	if len(s.asserted) > 0 && !s.defined[s.asserted[len(s.asserted)-1].ID] && s.asserted[len(s.asserted)-1].Op != OConst {
+		// assertions made after the context switched from FP-free to FP and back cannot happen; defensive
+	}
 	for _, e := range extra {
 		s.define(c, e)
 	}
@@ -409,4 +422,86 @@ func OneShot(argv []string, script string, limit time.Duration) (Result, string)
 		}
 	}
 	return Unknown, o
+}
+
+// oneShotModel decides (asserted ∧ extra) with a fresh solver process.
+func (s *Solver) oneShotModel(c *Ctx, extra []*Term, want []*Term) (Result, []string) {
+	tmp := &Solver{defined: map[int]bool{}, declV: map[string]bool{}, declF: map[string]bool{}}
+	all := append(append([]*Term(nil), s.asserted...), extra...)
+	for _, t := range all {
+		tmp.define(c, t)
+	}
+	for _, w := range want {
+		tmp.define(c, w)
+	}
+	var sb strings.Builder
+	sb.WriteString("(set-option :produce-models true)\n")
+	sb.WriteString(tmp.buf.String())
+	for _, t := range all {
+		fmt.Fprintf(&sb, "(assert %s)\n", tmp.name(t))
+	}
+	sb.WriteString("(check-sat)\n")
+	for _, w := range want {
+		fmt.Fprintf(&sb, "(get-value (%s))\n", tmp.name(w))
+	}
+	t0 := time.Now()
+	limit := time.Duration(s.timeout) * time.Millisecond
+	argv := []string{"z3", "-smt2", "-in", fmt.Sprintf("-T:%d", s.timeout/1000+1)}
+	cmd := exec.Command(argv[0], argv[1:]...)
+	cmd.Stdin = strings.NewReader(sb.String())
+	var out strings.Builder
+	cmd.Stdout = &out
+	cmd.Stderr = &out
+	res := Unknown
+	if err := cmd.Start(); err == nil {
+		done := make(chan error, 1)
+		go func() { done <- cmd.Wait() }()
+		select {
+		case <-done:
+		case <-time.After(limit + 2*time.Second):
+			cmd.Process.Kill()
+			<-done
+		}
+	}
+	s.St.SolverNS += time.Since(t0).Nanoseconds()
+	s.St.Queries++
+	s.OneShots++
+	lines := strings.Split(out.String(), "\n")
+	var vals []string
+	seen := false
+	for _, l := range lines {
+		l = strings.TrimSpace(l)
+		switch {
+		case l == "sat" && !seen:
+			res, seen = Sat, true
+		case l == "unsat" && !seen:
+			res, seen = Unsat, true
+		case (l == "unknown" || l == "timeout") && !seen:
+			res, seen = Unknown, true
+		case strings.HasPrefix(l, "(error") && res == Sat:
+			s.St.Errors++
+			s.LastErr = l
+			res = Unknown
+		case strings.HasPrefix(l, "(error") && !seen:
+			s.St.Errors++
+			s.LastErr = l
+			seen = true
+		case strings.HasPrefix(l, "((") && res == Sat:
+			vals = append(vals, parseGetValue(l))
+		}
+	}
+	switch res {
+	case Sat:
+		s.St.Sat++
+		if len(vals) != len(want) {
+			s.LastErr = fmt.Sprintf("one-shot: %d values for %d terms", len(vals), len(want))
+			s.St.Errors++
+			return Unknown, nil
+		}
+	case Unsat:
+		s.St.Unsat++
+	default:
+		s.St.Unknown++
+	}
+	return res, vals
 }
